@@ -20,7 +20,7 @@ func c05Gen(ctx *vh.Ctx, i int) *gcase5.Case {
 	o := gcase5.GenOpts{Mode: "mixed", MaxNodes: 6, Depth: 2, Cycles: true, FailPct: 2, BranchPct: 22,
 		StatePct: 60, HandlerPct: 30, RerunPct: 12, IntPct: 22}
 	if ctx.Thorough() {
-		o.MaxNodes = 9
+		o.MaxNodes = 7 // (the shared engine model's skip-propagation fuel covers chains of up to 6 skipped nodes)
 	}
 	switch i % 5 {
 	case 1: // nesting heavy
@@ -51,7 +51,7 @@ func c05Gen(ctx *vh.Ctx, i int) *gcase5.Case {
 }
 
 func runC05(ctx *vh.Ctx) error {
-	ctx.Res.Rule = "random graphs (pregel incl. cycles / dag, 1-6 nodes (9 thorough), branches, fan-in, nested graphs depth<=2) x interrupt-before/after subsets at every level x rerun-requesting nodes x state with pre/post handlers; driven with Invoke(WithCheckPointID) on a bytes-only store until completion (<=40 calls; thorough: Stream / mixed paradigms); compared per call with the Lean model (outcome, canonical InterruptInfo, store written, supersteps per (sub)graph, node executions with inputs) and across calls with the uninterrupted run of the same graph (final output, multiset of node executions minus aborted rerun attempts); non-trivial = at least one interrupt happened and >=2 nodes; distinct by canonical case"
+	ctx.Res.Rule = "random graphs (pregel incl. cycles / dag, 1-6 nodes (7 thorough), branches, fan-in, nested graphs depth<=2) x interrupt-before/after subsets at every level x rerun-requesting nodes x state with pre/post handlers; driven with Invoke(WithCheckPointID) on a bytes-only store until completion (<=40 calls; thorough: Stream / mixed paradigms); compared per call with the Lean model (outcome, canonical InterruptInfo, store written, supersteps per (sub)graph, node executions with inputs) and across calls with the uninterrupted run of the same graph (final output, multiset of node executions minus aborted rerun attempts); non-trivial = at least one interrupt happened and >=2 nodes; distinct by canonical case"
 	// the other property of the pair (C05 <-> C06) has its own source fact and repair: run the model with
 	// the variant the implementation under test has, so that this check is independent of that repair
 	other := gcase5.ProbeInitialChecked()
